@@ -25,6 +25,7 @@ static PULLS: Global<Vec<i64>> = Global::new(Vec::new());
 struct Rec<T> {
     items: std::vec::IntoIter<T>,
     next_ix: i64,
+    hint: u8,
 }
 impl<T> Iterator for Rec<T> {
     type Item = T;
@@ -36,12 +37,32 @@ impl<T> Iterator for Rec<T> {
         r
     }
     fn size_hint(&self) -> (usize, Option<usize>) {
-        self.items.size_hint()
+        // every honest shape of hint a std source can have: exact (Vec, array), no upper bound
+        // (from_fn, flat_map, successors), a lower bound only (chain of exact + unbounded), a
+        // useless upper bound (filter over a huge range)
+        let (lo, _) = self.items.size_hint();
+        match self.hint {
+            0 => (lo, Some(lo)),
+            1 => (0, None),
+            2 => (lo, None),
+            _ => (0, Some(usize::MAX)),
+        }
     }
 }
+static HINT_TURN: Global<u8> = Global::new(0);
 fn rec<T>(v: Vec<T>) -> Rec<T> {
     PULLS.with(|p| p.clear());
-    Rec { items: v.into_iter(), next_ix: 0 }
+    let hint = HINT_TURN.with(|h| {
+        *h = (*h + 1) % 7;
+        // exact hints most of the time, each other shape once per turn of seven
+        match *h {
+            2 => 1,
+            4 => 2,
+            6 => 3,
+            _ => 0,
+        }
+    });
+    Rec { items: v.into_iter(), next_ix: 0, hint }
 }
 
 pub struct Bulk<'a> {
